@@ -1797,6 +1797,9 @@ class NodeRequire:
                     data = None
                 if data:
                     modulesrc = data.decode("utf-8")
+                    # bundled modules are found whatever the case of their
+                    # name: every spelling shares one instance
+                    moduleidentifier = moduleidentifier.lower()
                 else:
                     filename = os.path.basename(modulefile)
                     modulepath = os.path.expanduser("~/.ckl/modules")
@@ -1820,11 +1823,14 @@ class NodeRequire:
                             ValueString("ERROR"),
                             f"Module {filename[:-4]} not found",
                             self.pos)
-                import ckl.parser
-                node = ckl.parser.parse_script(
-                    modulesrc, "mod:"+modulefile[0:-4])
-                node.evaluate(moduleEnv)
-                modules[moduleidentifier] = moduleEnv
+                if moduleidentifier in modules:
+                    moduleEnv = modules[moduleidentifier]
+                else:
+                    import ckl.parser
+                    node = ckl.parser.parse_script(
+                        modulesrc, "mod:"+modulefile[0:-4])
+                    node.evaluate(moduleEnv)
+                    modules[moduleidentifier] = moduleEnv
         finally:
             environment.popModuleStack()
 
